@@ -820,7 +820,10 @@ fn gen_small(args: &util::Args, out: &mut Out, stats: &mut BTreeMap<String, usiz
         let id = format!("small:{}:{}", args.seed, bi);
         match typecheck(&path, &src) {
             Ok((tast, genv)) => emit_program(out, &id, &tast, &genv, &src, true),
-            Err(e) => writeln!(out.text, "{}\tREJECT\t{}\t{}", id, crate::sexp::esc_line(&e), crate::sexp::esc_line(&src)).unwrap(),
+            Err(e) => {
+                writeln!(out.text, "{}\tREJECT\t{}\t{}", id, crate::sexp::esc_line(&e), crate::sexp::esc_line(&src)).unwrap();
+                patclass_of_rejected(out, &id, &src);
+            }
         }
     }
     let _ = std::fs::remove_dir_all(&dir);
@@ -905,7 +908,10 @@ pub fn main(args: &util::Args) {
             let id = format!("repo:{}", d.file_name().unwrap().to_string_lossy());
             match typecheck(&path, &src) {
                 Ok((tast, genv)) => emit_program(&mut out, &id, &tast, &genv, &src, false),
-                Err(e) => writeln!(out.text, "{}\tREJECT\t{}\t", id, crate::sexp::esc_line(&e)).unwrap(),
+                Err(e) => {
+                    writeln!(out.text, "{}\tREJECT\t{}\t", id, crate::sexp::esc_line(&e)).unwrap();
+                    patclass_of_rejected(&mut out, &id, &src);
+                }
             }
         }
         // minimised past failures
@@ -922,7 +928,10 @@ pub fn main(args: &util::Args) {
                 let _ = std::fs::write(&path, &src);
                 match typecheck(&path, &src) {
                     Ok((tast, genv)) => emit_program(&mut out, &id, &tast, &genv, &src, true),
-                    Err(e) => writeln!(out.text, "{}\tREJECT\t{}\t{}", id, crate::sexp::esc_line(&e), crate::sexp::esc_line(&src)).unwrap(),
+                    Err(e) => {
+                        writeln!(out.text, "{}\tREJECT\t{}\t{}", id, crate::sexp::esc_line(&e), crate::sexp::esc_line(&src)).unwrap();
+                        patclass_of_rejected(&mut out, &id, &src);
+                    }
                 }
             }
             let _ = std::fs::remove_dir_all(&dir);
@@ -987,7 +996,10 @@ pub fn main(args: &util::Args) {
                     }
                     emit_program(&mut out, &id, &tast, &genv, &src, true)
                 }
-                Err(e) => writeln!(out.text, "{}\tREJECT\t{}\t{}", id, crate::sexp::esc_line(&e), crate::sexp::esc_line(&src)).unwrap(),
+                Err(e) => {
+                    writeln!(out.text, "{}\tREJECT\t{}\t{}", id, crate::sexp::esc_line(&e), crate::sexp::esc_line(&src)).unwrap();
+                    patclass_of_rejected(&mut out, &id, &src);
+                }
             }
         }
         writeln!(out.text, "#FEATS\t{}", feats_total.iter().map(|(k, v)| format!("{}={}", k, v)).collect::<Vec<_>>().join(" ")).unwrap();
